@@ -45,10 +45,26 @@ class Compare:
             except (ValueError, IndexError):
                 return False
             return impl == model
-        if t[0] == "img":
+        if t[0] in ("onew", "osetw", "oparse"):
+            # object ops: a new object computes 3x3x3 default weights; user / parsed weights may be larger
+            nw = 27
+            try:
+                if t[0] == "osetw":
+                    wz0, wz1, wy0, wy1, wx0, wx1 = [int(x) for x in t[1:7]]
+                    nw = max(nw, max(0, wz1 - wz0 + 1) * max(0, wy1 - wy0 + 1) * max(0, wx1 - wx0 + 1))
+                elif t[0] == "oparse":
+                    tk = op.split()
+                    nw = max(nw, sum(1 for x in tk[tk.index("W"):] if "0x" in x))
+            except (ValueError, IndexError):
+                return False
+            self.nops = nw + 16
+            return impl == model
+        if t[0] in ("img", "obox", "okappa", "oanat", "oset", "osetup"):
             return impl == model
         a, b = impl.split(), model.split()
-        if t[0] == "defw":
+        if t[0] == "owts" and len(a) == 6 and len(b) == 6:
+            return a == b  # no weights (yet)
+        if t[0] in ("defw", "owts"):
             if a[:6] != b[:6]:
                 return False
             a, b = a[6:], b[6:]
@@ -83,7 +99,7 @@ def main(tier, replay):
     chk = vlib.Check(PROP, tier, level="proof")
     audit = vlib.lean_gate(chk, PROP)
     cmp = Compare()
-    stats = vlib.run_differential(chk, PROP, "c09_priors", tier, compare=cmp)
+    stats = vlib.run_differential(chk, PROP, "c09_priors", tier, compare=cmp, ctx_prefixes=("cfg", "onew", "oparse"))
     # the oracle file must be complete (the harness writes ORACLE-DONE last)
     of = os.path.join(vlib.OUT, "%s_%s.impl.oracle" % (PROP.lower(), tier))
     if not (os.path.exists(of) and any(l.startswith("ORACLE-DONE") for l in open(of))):
